@@ -5,7 +5,7 @@ from ..pat import ANY, V, match, call, fld, alt, contains
 from ..pg import show_lit
 from ..idioms import term_is, is_param_of_adt, STORE_TERM_CALL
 from .commit import write_value, ctor_sites, _in_msg_arm
-from .vote import is_f
+from .vote import is_f, STATE
 
 MATCHED = "Progress.matched"
 PERSISTED = "RaftLog.persisted"
@@ -184,6 +184,29 @@ def _first_update_index(e):
     has_off = any(is_f(x, "Unstable.offset") for x in vals)
     has_snap = any(is_f(x, "SnapshotMetadata.index") and contains(fld("Unstable.snapshot"), x) for x in vals)
     return has_off and has_snap and len(vals) == 2
+
+
+@obligation("COMMIT.reevaluate", ["C10", "C04"], floor=2, kind="pairing (after-edge must-pass)",
+            why="the commit index only moves when the leader recomputes it: every event that raises a match index (a follower's ack, the leader's own persistence notice) must be followed by that recomputation, whatever else is tested alongside")
+def commit_reevaluate(cx):
+    n = 0
+    mc_fn = cx.fn("Raft::maybe_commit")
+    for c in cx.prog.call_sites_of("Progress::maybe_update"):
+        f = c.fn
+        from ..engine import _clause_holds
+        if _clause_holds(cx, c, lambda l: l[0] == "in" and is_f(l[1], STATE) and l[2] == frozenset(["Follower"]), False)[0]:
+            continue   # a follower's own bookkeeping (the snapshot install), not a leader-side event
+        g = cx.pg(f)
+        mcb = {x.block for x in cx.prog.call_sites_of(cx.sfx("Raft::maybe_commit")) if x.fn is f}
+        def advanced(l):
+            return l[0] == "is" and l[2] is True and l[1][0] == "call" and l[1][1].endswith("Progress::maybe_update")
+        def advanced_via_match(l):
+            # `let updated = match prs.get_mut(id) { Some(pr) => pr.maybe_update(i), None => false }; if updated ..`
+            return l[0] == "is" and l[2] is True and any(x[0] == "call" and x[1].endswith("Progress::maybe_update") for x in walk(l[1]))
+        ok, ne = g.after_edge_must_pass(lambda lits: any(advanced(l) or advanced_via_match(l) for l in lits), lambda b: b in mcb)
+        cx.check(ok and ne >= 1 and bool(mcb), cx.site_key(c, "recompute"), "whenever maybe_update() advanced a match index in %s, maybe_commit() is evaluated" % fn_name(f), c)
+        n += 1
+    cx.check(n >= 2, "floor", "the acknowledgement handler and the persistence notice were found")
 
 
 @obligation("PERSIST.writers", ["C04", "C07", "C14"], floor=4, kind="who-may-write + guard + value",
